@@ -92,7 +92,179 @@ type c14Interp struct {
 	pk       *packages.Package
 	funcs    map[string]*ast.FuncDecl
 	locals   map[types.Object]cpoly
+	localsC  map[types.Object]gateEntry // local complex values: zero := Complex32{0, 0}
+	alias    map[types.Object]string    // helper parameter -> the caller's angle name
 	loopBind map[ast.Stmt]map[types.Object]*float64
+}
+
+// evalTuple evaluates a call that yields several reals: math.Sincos, or a straight-line helper of
+// the same package (`func halfAngle(phase float32) (float32, float32)`), interpreted with its
+// parameters bound to the caller's arguments.
+func (ci *c14Interp) evalTuple(call *ast.CallExpr, info *types.Info, params map[types.Object]*float64, angle *string, depth int) ([]cpoly, string) {
+	c := core.CalleeOf(info, call)
+	if c == nil || c.Pkg() == nil {
+		return nil, "call outside the interpreted fragment: " + types.ExprString(call)
+	}
+	if c.Pkg().Path() == "math" && c.Name() == "Sincos" && len(call.Args) == 1 {
+		var out []cpoly
+		for _, fn := range []string{"Sin", "Cos"} {
+			p, why := ci.trig(fn, call.Args[0], info, params, angle)
+			if why != "" {
+				return nil, why
+			}
+			out = append(out, p)
+		}
+		return out, ""
+	}
+	fd := ci.funcs[c.Name()]
+	if c.Pkg() != ci.pk.Types || fd == nil || fd.Recv != nil || depth > 3 {
+		return nil, "call outside the interpreted fragment: " + types.ExprString(call)
+	}
+	hp := map[types.Object]*float64{}
+	idx := 0
+	for _, f := range fd.Type.Params.List {
+		for _, n := range f.Names {
+			if idx >= len(call.Args) {
+				return nil, "variadic helper"
+			}
+			a := ast.Unparen(call.Args[idx])
+			idx++
+			o := info.ObjectOf(n)
+			if tv, ok := info.Types[a]; ok && tv.Value != nil {
+				v, _ := constant.Float64Val(constant.ToFloat(tv.Value))
+				hp[o] = &v
+				continue
+			}
+			arg, sign, why := ci.evalAngle(a, info, params)
+			if why != "" || sign != 1 {
+				return nil, "helper argument outside the interpreted fragment: " + types.ExprString(a)
+			}
+			if arg.isConst {
+				v := arg.val
+				hp[o] = &v
+				continue
+			}
+			hp[o] = nil
+			ci.alias[o] = arg.key
+		}
+	}
+	for _, st := range fd.Body.List {
+		switch x := st.(type) {
+		case *ast.AssignStmt:
+			if why := ci.assignReals(x, info, hp, angle, depth); why != "" {
+				return nil, why
+			}
+		case *ast.ReturnStmt:
+			var out []cpoly
+			for _, e := range x.Results {
+				p, why := ci.evalReal(e, info, hp, angle)
+				if why != "" {
+					return nil, why
+				}
+				out = append(out, p)
+			}
+			return out, ""
+		default:
+			return nil, fmt.Sprintf("helper %s: statement %T outside the interpreted fragment", c.Name(), st)
+		}
+	}
+	return nil, "helper does not return"
+}
+
+// assignReals handles `x := <real>` and `a, b := <tuple call>` for float locals; "" on success,
+// "-" when the statement is not of that form.
+func (ci *c14Interp) assignReals(x *ast.AssignStmt, info *types.Info, params map[types.Object]*float64, angle *string, depth int) string {
+	isFloat := func(e ast.Expr) types.Object {
+		id, ok := e.(*ast.Ident)
+		if !ok {
+			return nil
+		}
+		o := info.ObjectOf(id)
+		if o == nil {
+			return nil
+		}
+		if b, ok := o.Type().Underlying().(*types.Basic); ok && b.Info()&types.IsFloat != 0 {
+			return o
+		}
+		return nil
+	}
+	if len(x.Rhs) == 1 && len(x.Lhs) > 1 {
+		call, ok := x.Rhs[0].(*ast.CallExpr)
+		if !ok {
+			return "-"
+		}
+		var objs []types.Object
+		for _, l := range x.Lhs {
+			o := isFloat(l)
+			if o == nil {
+				if id, ok := l.(*ast.Ident); ok && id.Name == "_" {
+					objs = append(objs, nil)
+					continue
+				}
+				return "-"
+			}
+			objs = append(objs, o)
+		}
+		ps, why := ci.evalTuple(call, info, params, angle, depth+1)
+		if why != "" {
+			return why
+		}
+		if len(ps) != len(objs) {
+			return "tuple arity mismatch"
+		}
+		for i, o := range objs {
+			if o != nil {
+				ci.locals[o] = ps[i]
+			}
+		}
+		return ""
+	}
+	if len(x.Lhs) == len(x.Rhs) {
+		all := true
+		for _, l := range x.Lhs {
+			if isFloat(l) == nil {
+				all = false
+			}
+		}
+		if !all {
+			return "-"
+		}
+		var ps []cpoly
+		for _, e := range x.Rhs {
+			p, why := ci.evalReal(e, info, params, angle)
+			if why != "" {
+				return why
+			}
+			ps = append(ps, p)
+		}
+		for i, l := range x.Lhs {
+			ci.locals[isFloat(l)] = ps[i]
+		}
+		return ""
+	}
+	return "-"
+}
+
+// trig evaluates math.Cos/math.Sin of an angle expression.
+func (ci *c14Interp) trig(fn string, argE ast.Expr, info *types.Info, params map[types.Object]*float64, angle *string) (cpoly, string) {
+	arg, sign, why := ci.evalAngle(argE, info, params)
+	if why != "" {
+		return nil, why
+	}
+	if arg.isConst {
+		if fn == "Cos" {
+			return constPoly(math.Cos(arg.val)), ""
+		}
+		return constPoly(math.Sin(arg.val)), ""
+	}
+	if *angle != "" && *angle != arg.key {
+		return nil, "two different angle arguments in one gate (" + *angle + ", " + arg.key + ")"
+	}
+	*angle = arg.key
+	if fn == "Cos" {
+		return cpoly{mono{1, 0}: 1}, "" // cos is even
+	}
+	return cpoly{mono{0, 1}: complex(float64(sign), 0)}, ""
 }
 
 func constPoly(v float64) cpoly { return cpoly{mono{0, 0}: complex(v, 0)} }
@@ -148,25 +320,7 @@ func (ci *c14Interp) evalReal(e ast.Expr, info *types.Info, params map[types.Obj
 			return ci.evalReal(x.Args[0], info, params, angle)
 		}
 		if c := core.CalleeOf(info, x); c != nil && c.Pkg() != nil && c.Pkg().Path() == "math" && (c.Name() == "Cos" || c.Name() == "Sin") && len(x.Args) == 1 {
-			// argument: constant, or ±(param [/ k])
-			arg, sign, why := ci.evalAngle(x.Args[0], info, params)
-			if why != "" {
-				return nil, why
-			}
-			if arg.isConst {
-				if c.Name() == "Cos" {
-					return constPoly(math.Cos(arg.val)), ""
-				}
-				return constPoly(math.Sin(arg.val)), ""
-			}
-			if *angle != "" && *angle != arg.key {
-				return nil, "two different angle arguments in one gate (" + *angle + ", " + arg.key + ")"
-			}
-			*angle = arg.key
-			if c.Name() == "Cos" {
-				return cpoly{mono{1, 0}: 1}, "" // cos is even
-			}
-			return cpoly{mono{0, 1}: complex(float64(sign), 0)}, ""
+			return ci.trig(c.Name(), x.Args[0], info, params, angle)
 		}
 	}
 	return nil, "entry expression outside the interpreted fragment: " + types.ExprString(e)
@@ -201,6 +355,9 @@ func (ci *c14Interp) evalAngle(e ast.Expr, info *types.Info, params map[types.Ob
 			if pv, ok := params[o]; ok {
 				if pv != nil {
 					return angleArg{isConst: true, val: *pv}, 1, ""
+				}
+				if a, ok := ci.alias[o]; ok {
+					return angleArg{key: a}, 1, ""
 				}
 				return angleArg{key: x.Name}, 1, ""
 			}
@@ -255,6 +412,10 @@ func (ci *c14Interp) build(name string, args []*float64, depth int) (*gateMatrix
 	var mObj types.Object
 	locals := map[types.Object]cpoly{}
 	ci.locals = locals
+	localsC := map[types.Object]gateEntry{}
+	if ci.alias == nil {
+		ci.alias = map[types.Object]string{}
+	}
 	// unroll constant-bound loops into a flat statement list
 	var flat []ast.Stmt
 	var flatten func(list []ast.Stmt, bind map[types.Object]*float64) string
@@ -332,17 +493,66 @@ func (ci *c14Interp) build(name string, args []*float64, depth int) (*gateMatrix
 		pendingRestore = restore
 		switch x := st.(type) {
 		case *ast.AssignStmt:
+			if why := ci.assignReals(x, info, params, &g.angle, depth); why == "" {
+				continue
+			} else if why != "-" {
+				return nil, why
+			}
+			complexLit := func(e ast.Expr) (gateEntry, string, bool) {
+				if id, ok := ast.Unparen(e).(*ast.Ident); ok {
+					if ge, ok := localsC[info.ObjectOf(id)]; ok {
+						return ge, "", true
+					}
+					return gateEntry{}, "", false
+				}
+				cl, ok := ast.Unparen(e).(*ast.CompositeLit)
+				if !ok || len(cl.Elts) != 2 {
+					return gateEntry{}, "", false
+				}
+				if nm, ok := info.TypeOf(cl).(*types.Named); !ok || nm.Obj().Name() != "Complex32" {
+					return gateEntry{}, "", false
+				}
+				e0, e1 := cl.Elts[0], cl.Elts[1]
+				if kv, ok := e0.(*ast.KeyValueExpr); ok {
+					kv1, ok1 := e1.(*ast.KeyValueExpr)
+					if !ok1 {
+						return gateEntry{}, "", false
+					}
+					k0, _ := kv.Key.(*ast.Ident)
+					k1, _ := kv1.Key.(*ast.Ident)
+					if k0 == nil || k1 == nil {
+						return gateEntry{}, "", false
+					}
+					e0, e1 = kv.Value, kv1.Value
+					if k0.Name == "Imag" && k1.Name == "Real" {
+						e0, e1 = e1, e0
+					} else if !(k0.Name == "Real" && k1.Name == "Imag") {
+						return gateEntry{}, "", false
+					}
+				}
+				re, w1 := ci.evalReal(e0, info, params, &g.angle)
+				if w1 != "" {
+					return gateEntry{}, w1, true
+				}
+				im, w2 := ci.evalReal(e1, info, params, &g.angle)
+				if w2 != "" {
+					return gateEntry{}, w2, true
+				}
+				return gateEntry{re, im}, "", true
+			}
 			if len(x.Lhs) == 1 && len(x.Rhs) == 1 {
-				// local real value: realPart := float32(math.Cos(...))
+				// local complex value: zero := Complex32{0.0, 0.0}
 				if id, ok := x.Lhs[0].(*ast.Ident); ok {
 					if o := info.ObjectOf(id); o != nil {
-						if b, ok := o.Type().Underlying().(*types.Basic); ok && b.Info()&types.IsFloat != 0 {
-							p, why := ci.evalReal(x.Rhs[0], info, params, &g.angle)
+						if nm, ok := o.Type().(*types.Named); ok && nm.Obj().Name() == "Complex32" {
+							ge, why, ok := complexLit(x.Rhs[0])
 							if why != "" {
 								return nil, why
 							}
-							locals[o] = p
-							continue
+							if ok {
+								localsC[o] = ge
+								continue
+							}
 						}
 					}
 				}
@@ -371,18 +581,14 @@ func (ci *c14Interp) build(name string, args []*float64, depth int) (*gateMatrix
 									return nil, "non-constant matrix index"
 								}
 								i, j := int64(real(ip[mono{0, 0}])), int64(real(jp[mono{0, 0}]))
-								cl, ok := x.Rhs[0].(*ast.CompositeLit)
-								if !ok || len(cl.Elts) != 2 {
-									return nil, "entry is not a Complex32{re, im} literal"
+								ge, why, ok := complexLit(x.Rhs[0])
+								if why != "" {
+									return nil, why
 								}
-								re, w1 := ci.evalReal(cl.Elts[0], info, params, &g.angle)
-								if w1 != "" {
-									return nil, w1
+								if !ok {
+									return nil, "entry is not a Complex32{re, im} literal or a local holding one"
 								}
-								im, w2 := ci.evalReal(cl.Elts[1], info, params, &g.angle)
-								if w2 != "" {
-									return nil, w2
-								}
+								re, im := ge.re, ge.im
 								g.data[[2]int{int(i), int(j)}] = gateEntry{re, im}
 								continue
 							}
